@@ -161,4 +161,43 @@ example : (Flow.run 2 (Flow.init : Flow.S Nat)
      .pStart 2 3, .pLock 2, .resume, .sSendDone, .sTakeReq, .pEnq 2, .sSendDone, .sTakeReq, .sSendDone, .sTakeReq, .sSendDone]).map
     (fun s => s.sent.map (·.2)) = some [1, 7, 2, 3] := by decide
 
+/-! ## Bursts of rejected responses; an accepted response moves its own type's version only (added in the last session) -/
+
+/-- **any number of rejected responses in a row, of any types, change nothing**: the cache, the name table, every
+acknowledged version, the interest sets and the access bookkeeping after the burst are those before it -/
+theorem nack_burst_frame (cfg : Cfg) (rs : List (Resp × Nat)) (s s' : St)
+    (hd : ∀ p ∈ rs, p.1.decodes = false)
+    (hs : run cfg s (rs.map (fun p => Op.push p.1 p.2)) = some s') :
+    s'.cache = s.cache ∧ s'.table = s.table ∧ s'.version = s.version ∧ s'.watched = s.watched ∧ s'.acc = s.acc := by
+  induction rs generalizing s with
+  | nil => simp only [List.map_nil, run] at hs; cases hs; exact ⟨rfl, rfl, rfl, rfl, rfl⟩
+  | cons p rest ih =>
+    simp only [List.map_cons, run] at hs
+    cases h1 : step cfg s (.push p.1 p.2) with
+    | none => simp [h1] at hs
+    | some s1 =>
+      simp only [h1] at hs
+      obtain ⟨a1, a2, a3, a4, a5⟩ := nack_frame cfg s s1 p.1 p.2 (hd p (by simp)) h1
+      obtain ⟨b1, b2, b3, b4, b5⟩ := ih s1 (fun q hq => hd q (by simp [hq])) hs
+      exact ⟨b1.trans a1, b2.trans a2, b3.trans a3, b4.trans a4, b5.trans a5⟩
+
+/-- an accepted response of a watched type sets the acknowledged version of its own type to the response's version and
+leaves the acknowledged version of every other type alone -/
+theorem accept_moves_own_version_only (cfg : Cfg) (s s' : St) (r : Resp) (now : Nat) (ws : List Name)
+    (hw : s.watched r.rt = some ws) (hd : r.decodes = true) (hs : step cfg s (.push r now) = some s') :
+    s'.version r.rt = r.version ∧ ∀ t, t ≠ r.rt → s'.version t = s.version t := by
+  simp only [step, hw] at hs
+  split at hs; · cases hs
+  split at hs; · cases hs
+  split at hs; · cases hs
+  simp only [hd, Bool.not_true, Bool.false_eq_true, if_false] at hs
+  have hv : ∀ s2 : St, s2.version = (ack s r true s.recvStream).version →
+      s2.version r.rt = r.version ∧ ∀ t, t ≠ r.rt → s2.version t = s.version t := by
+    intro s2 h2
+    rw [h2, ack_version_true]
+    exact ⟨by simp, fun t ht => by simp [ht]⟩
+  split at hs
+  · cases hs; exact hv _ rfl
+  · cases hs; exact hv _ rfl
+
 end XdsVerif.Properties.C02
